@@ -39,11 +39,11 @@ func buildUniverse(name string, base, n int, flavour uint64) *sw.Universe {
 
 var c01Classes = []string{"net:lookup", "net:tile:L0", "net:tile:L1", "net:tile:L0:full", "net:tile:L2", "net:any", "cache:read:lookup", "cache:read:tile", "cache:write", "config:read", "config:write"}
 
-var c01CacheKinds = []string{"cache-read-error", "cache-bitflip", "cache-truncate"}
+var c01CacheKinds = []string{"cache-read-error", "cache-bitflip", "cache-truncate", "cache-garbage", "cache-swap"}
 
 func drawFault(src *choice.Src, nclients int) *sw.Fault {
 	f := &sw.Fault{Client: src.Intn(nclients+1) - 1, Occ: src.Weighted(5, 3, 2, 1, 1, 1), A: src.Raw(), B: src.Raw()}
-	f.Class = c01Classes[src.Weighted(6, 5, 3, 2, 1, 4, 2, 2, 2, 1, 1)]
+	f.Class = c01Classes[src.Weighted(6, 5, 3, 2, 1, 4, 4, 4, 2, 1, 1)]
 	switch {
 	case strings.HasPrefix(f.Class, "net:"):
 		if src.Bool(1, 6) {
@@ -72,14 +72,14 @@ func drawFault(src *choice.Src, nclients int) *sw.Fault {
 // other half of that situation: the client authenticates the record against the newer head it holds in
 // memory and caches the spliced answer; if that newer head never reaches the configuration (write error,
 // or a crash between installing it in memory and writing it) the next process cannot validate the entry.
-var diskFaultKinds = map[string]bool{"cache-bitflip": true, "cache-truncate": true, "cache-write-torn": true, "cache-cross": true, "config-write-error": true, "stale-splice": true}
+var diskFaultKinds = map[string]bool{"cache-bitflip": true, "cache-truncate": true, "cache-write-torn": true, "cache-cross": true, "cache-garbage": true, "cache-swap": true, "config-write-error": true, "stale-splice": true}
 
 // substitutionKinds deliver an AUTHENTIC record that is not the one asked for. The client accepts and
 // caches it under the requested name (it authenticates records, not their relation to the request), so
 // later lookups of that name on the machine succeed with zero lines. That is outside what C01 states
 // (nothing unauthenticated is returned or stored), so such runs relax the exact-lines expectation to
 // "exact lines or none"; see DESIGN.md, observations.
-var substitutionKinds = map[string]bool{"swap": true, "craft-append": true, "stale": true, "equivocate": true}
+var substitutionKinds = map[string]bool{"swap": true, "craft-append": true, "stale": true, "equivocate": true, "cache-swap": true}
 
 func substituted(res *core.Result) bool {
 	for k := range res.Faults {
